@@ -312,6 +312,18 @@ func runC07(r *core.Run) (bool, string) {
 	}
 	c := &c07Ctx{r: r, bin: bin, di: newDeclIndex(), crashes: map[string][]map[string]interface{}{}, errCats: map[string]int{}}
 
+	if only := os.Getenv("VERIF_C07_ONLY"); only != "" {
+		// development aid: run single families; never a verdict about the property (reported as inconclusive)
+		for _, f := range strings.Split(only, ",") {
+			switch f {
+			case "scale":
+				c.runScale()
+			case "locate":
+				c.runLocate()
+			}
+		}
+		return false, "VERIF_C07_ONLY=" + only + ": only the named families were run"
+	}
 	t0 := time.Now()
 	c.runWitnesses()
 	t1 := time.Now()
@@ -327,7 +339,11 @@ func runC07(r *core.Run) (bool, string) {
 	t5 := time.Now()
 	c.runStress()
 	t6 := time.Now()
-	r.Set("phase_seconds", map[string]float64{"witnesses": t1.Sub(t0).Seconds(), "stdlib": t2.Sub(t1).Seconds(), "catalogue": t3.Sub(t2).Seconds(), "mixtures": t4.Sub(t3).Seconds(), "mutants": t5.Sub(t4).Seconds(), "stress": t6.Sub(t5).Seconds()})
+	c.runScale()
+	t7 := time.Now()
+	c.runLocate()
+	t8 := time.Now()
+	r.Set("phase_seconds", map[string]float64{"witnesses": t1.Sub(t0).Seconds(), "stdlib": t2.Sub(t1).Seconds(), "catalogue": t3.Sub(t2).Seconds(), "mixtures": t4.Sub(t3).Seconds(), "mutants": t5.Sub(t4).Seconds(), "stress": t6.Sub(t5).Seconds(), "scale": t7.Sub(t6).Seconds(), "locate": t8.Sub(t7).Seconds()})
 
 	// evidence: crash classes with witnesses, error classes
 	cls := map[string]interface{}{}
